@@ -537,7 +537,21 @@ class LabReplay:
                                     ("destination", dn, out.new[dn], {p[1] for p in ev["pairs"]})):
             ws = self.P.wells_of(post)
             for i in sorted(idxs):
-                d = self.P.well_diff(ws[i - 1], ctx["spec_post"][n]["w"][i - 1], ctx["k"])
+                slack = None
+                if side == "source":
+                    # the fraction moved is requested / available, and what is available is stored rounded to the library's
+                    # quantum: the fraction is uncertain by quantum / available, hence what STAYS of each substance by that
+                    # times what was there (it matters when everything is taken: 5e-11 of a large amount is not zero)
+                    pre = ctx["spec_pre"][n]["w"][i - 1]
+                    u = ev["u"]
+                    su = float({"L": self.inst.vol_store_scale(), "mol": self.inst.amount_store_scale("W"),
+                                "U": self.inst.amount_store_scale("E"), "g": self.inst.base_scale("g")}[u])
+                    avail = float(measure(pre["c"], u)) * su
+                    if avail > 0:
+                        f = 4 * self.P.quantum / avail
+                        slack = {s_: f * self.P.exp_amount(s_, x) for s_, x in pre["c"].items()}
+                        slack["vol"] = f * self.P.exp_vol(pre["vol"])
+                d = self.P.well_diff(ws[i - 1], ctx["spec_post"][n]["w"][i - 1], ctx["k"], slack=slack)
                 if d:
                     self.report("C02", "wrong_aliquot", dict(key, side=side), f"{out.call}: {n} well {i}: {d}", ev, ctx["pre_key"])
                     return
